@@ -15,7 +15,7 @@ from mc.engine import e1
 from mc.engine.core import Collector, Result, Violation, pmap
 
 BOUNDS = {
-    "quick": dict(max_nodes=3, max_links=2, depth=3, root_links=True, req=(None, 3), inserts=("dfg",)),
+    "quick": dict(max_nodes=4, max_links=2, depth=3, root_links=True, req=(None, 3), inserts=("dfg",)),
     "thorough": dict(max_nodes=4, max_links=3, depth=4, root_links=True, req=(None, 3), inserts=("one", "dfg")),
 }
 
